@@ -127,6 +127,7 @@ func StartSys(c *Ctx, name string, opts ...actor.Option) *Sys {
 	if err != nil {
 		panic("NewActorSystem: " + err.Error())
 	}
+	actor.VerifSortLocalQueues(sys) // lock order of work stealing must not depend on heap addresses (determinism)
 	if err := sys.Start(s.Ctx); err != nil {
 		panic("ActorSystem.Start: " + err.Error())
 	}
